@@ -1,3 +1,5 @@
+//go:build verif
+
 package checks
 
 // C07 — sync gate: no target code before approval; failed launches never run and leave no child.
